@@ -369,7 +369,7 @@ func init() {
 		Streams: []Stream{
 			{Name: "positions", N: func(c *Ctx) int { return tierN(c, 1500, 100000) }, Run: c11Positions},
 			{Name: "order", N: func(c *Ctx) int { return tierN(c, 3000, 60000) }, Run: c11Order},
-			{Name: "rename", N: func(c *Ctx) int { return tierN(c, 20000, 1500000) }, Run: c11Rename},
+			{Name: "rename", N: func(c *Ctx) int { return tierN(c, 20000, 4000000) }, Run: c11Rename},
 		},
 	})
 }
